@@ -1753,6 +1753,14 @@ void runSeq(const SeqPlan &p, pbt::Case &c)
     const SeqConn &cn = p.conns[k];
     pbt::Fmt where;
     where << "connection " << k + 1 << " of " << p.conns.size() << ": ";
+    // Only accepts announced AFTER this connection was started can be this connection: after an
+    // RST there is no TIME_WAIT, so the kernel may hand the raw peer the very same source port
+    // again and an earlier session of this case would match by port.
+    std::size_t firstAccept;
+    {
+      std::lock_guard<std::mutex> lk(st->mu);
+      firstAccept = st->accepts.size();
+    }
     fd = rawpeer::tcpConnectFrom(port, 0, 0, [&](std::uint16_t lp) { st->expectPort.store(lp); });
     if (fd < 0)
     {
@@ -1764,8 +1772,8 @@ void runSeq(const SeqPlan &p, pbt::Case &c)
     {
       std::unique_lock<std::mutex> lk(st->mu);
       bool ok = st->cv.wait_for(lk, std::chrono::milliseconds(kSetupMs), [&] {
-        for (auto &a : st->accepts)
-          if (a.second == myPort) return true;
+        for (std::size_t i = firstAccept; i < st->accepts.size(); ++i)
+          if (st->accepts[i].second == myPort) return true;
         return false;
       });
       if (!ok)
@@ -1774,8 +1782,12 @@ void runSeq(const SeqPlan &p, pbt::Case &c)
         c.inconclusive("connection was not announced within the setup bound");
         break;
       }
-      for (auto &a : st->accepts)
-        if (a.second == myPort) sid = a.first;
+      for (std::size_t i = firstAccept; i < st->accepts.size(); ++i)
+        if (st->accepts[i].second == myPort)
+        {
+          sid = st->accepts[i].first;
+          break;
+        }
     }
     const int efd = c01net::lastEngineStreamFd();
     if (lastEfd >= 0 && efd == lastEfd) fdReused = true;
